@@ -180,6 +180,8 @@ def rule_child_adopts(ctx, rep):
 
 META["explanation"] += " " + "Also (rounds 10-11): call_rcu's read-side bracket around helper lookup + enqueue, and the STOPPED handshake of helper teardown (the worker re-queues itself from the last batch)."
 
+META["explanation"] += " " + 'Also (round 12): helper-selection state is written only by its setters (shared from C03).'
+
 RULES = [
     ("C14.child", rule_child_adopts),
     ("C14.lock", rule_lock),
